@@ -276,7 +276,7 @@ class Scan:
             else:
                 item_end = j + 1
             head = norm(s[hs:head_end])
-            kw = re.match(r'(?:pub(?:\([^)]*\))? )?(?:unsafe )?(?:const )?(?:unsafe )?(impl|struct|enum|mod|use|fn|static|const|type|trait)\b', head)
+            kw = re.match(r'(?:pub(?:\([^)]*\))? ?)?(?:unsafe )?(?:const )?(?:unsafe )?(impl|struct|enum|mod|use|fn|static|const|type|trait)\b', head)
             kind = kw.group(1) if kw else 'other'
             if re.match(r'(?:pub(?:\([^)]*\))? )?const [A-Za-z_][A-Za-z0-9_]*:', head):
                 kind = 'const'
